@@ -57,6 +57,11 @@ type Script struct {
 	// RetransMs > 0: real retransmission timers of that length (MaxRetrans 2) and a simulated SMF that answers every
 	// Session Report Request at once, so that responses and timer expiries meet in the event loop's queues
 	RetransMs int `json:"retrans_ms,omitempty"`
+	// TickSlowMs > 0: the usage query of the tick placed inside the bulk removal is held inside the data plane until the removal's
+	// timer events have filled the periodic server's queue (the loop then waits for a slot), TickSlowMs at most; QueryErr: that query then fails as a whole
+	// (ENOENT, some of its URRs are gone by the time it is evaluated)
+	TickSlowMs int  `json:"tick_slow_ms,omitempty"`
+	QueryErr   bool `json:"query_err,omitempty"`
 	// Real, when non-empty, replaces the injected ticks by a wall-clock schedule with real tickers (periods of 1..3 s)
 	Real []RealEv `json:"real,omitempty"`
 }
@@ -80,6 +85,7 @@ type Result struct {
 	Reported     int      `json:"reported"`       // sessions one tick reports
 	InFlight     int      `json:"in_flight"`      // notifications written while the loop was busy
 	Lost         string   `json:"lost,omitempty"` // a notification consumed by the listener that never reached its packet queue
+	HeldFull     bool     `json:"held_full,omitempty"` // the tick's query was inside the data plane while the periodic server's queue filled up
 	BusyRemovals int      `json:"busy_removals"`  // real-ticker scripts: deletions landing while the periodic server is inside a slow query
 	WallMs       int64    `json:"wall_ms"`
 }
@@ -458,7 +464,17 @@ func runScript(s Script) (res Result) {
 	switch s.Bulk {
 	case "reassoc":
 		if s.Tick == "inside" {
+			if s.TickSlowMs > 0 {
+				f.D.K.PsHold.Store(true)
+			}
+			f.D.K.MultiErrIfMissing.Store(s.QueryErr)
 			tick()
+			if s.TickSlowMs > 0 {
+				// the tick's usage query is inside the data plane now
+				for i := 0; i < 50000 && f.D.K.PsHeld.Load() == 0; i++ {
+					time.Sleep(100 * time.Microsecond)
+				}
+			}
 			// let the periodic server get as far as posting reports
 			time.Sleep(time.Duration(200+s.LatencyUs*4) * time.Microsecond)
 		}
@@ -483,7 +499,20 @@ func runScript(s Script) (res Result) {
 		tick()
 	}
 	// ---- liveness
+	if s.TickSlowMs > 0 {
+		// the query returns once the removal has filled the periodic server's queue (the loop then waits for a slot), or after TickSlowMs
+		ps := f.D.G.VerifPerio()
+		for t1 := time.Now(); time.Since(t1) < time.Duration(s.TickSlowMs)*time.Millisecond && ps.VerifQueueLen() < ps.VerifQueueCap(); {
+			time.Sleep(200 * time.Microsecond)
+		}
+		if ps.VerifQueueLen() >= ps.VerifQueueCap() {
+			time.Sleep(2 * time.Millisecond) // the loop is on its way into the next post
+			res.HeldFull = true
+		}
+		f.D.K.PsHold.Store(false)
+	}
 	err = f.S.Barrier()
+	f.D.K.MultiErrIfMissing.Store(false)
 	switch e := err.(type) {
 	case nil:
 		res.OK = true
@@ -715,6 +744,9 @@ func account(s Script, r Result) {
 		vcore.E.Exclude("inconclusive")
 		vcore.E.Note(r.Inconclusive)
 	}
+	if r.HeldFull {
+		vcore.E.Class("tick_query_in_the_data_plane_while_the_timer_queue_filled_up")
+	}
 	if len(s.Real) > 0 {
 		vcore.E.Class("real-tickers")
 		if r.BusyRemovals > 0 {
@@ -737,6 +769,8 @@ func fixed() []Script {
 		{Name: "events-over-reports-under", Sessions: 110, URRs: 5, Periods: 1, Tick: "inside", Bulk: "reassoc"},
 		{Name: "events-under-reports-over", Sessions: 200, URRs: 2, Periods: 1, Tick: "inside", Bulk: "reassoc"},
 		{Name: "burst-below-capacity-during-mods", Sessions: 10, URRs: 0, Periods: 1, Burst: 100, BurstAt: "mods", Mods: 20, LatencyUs: 100, Tick: "none", Bulk: "none"},
+		{Name: "slow-failing-tick-inside-reassoc", Sessions: 60, URRs: 10, Periods: 1, Tick: "inside", Bulk: "reassoc", TickSlowMs: 5000, QueryErr: true},
+		{Name: "slow-tick-inside-reassoc", Sessions: 110, URRs: 5, Periods: 2, Tick: "inside", Bulk: "reassoc", TickSlowMs: 5000},
 		{Name: "massdel-with-tick", Sessions: 200, URRs: 2, Periods: 1, Tick: "inside", Bulk: "massdel"},
 		{Name: "burst-idle-600", Sessions: 5, URRs: 1, Periods: 1, Burst: 600, BurstAt: "idle", Tick: "after", Bulk: "none"},
 		{Name: "silent-burst-during-mods", Sessions: 4, URRs: 1, Periods: 1, LatencyUs: 200, Burst: 100, BurstAt: "mods", Mods: 30, Tick: "before", Bulk: "none", Silent: true},
@@ -806,6 +840,10 @@ func gen(t *rapid.T) Script {
 	}
 	if s.Burst == 0 {
 		s.BurstAt = "none"
+	}
+	if s.Tick == "inside" && s.Bulk == "reassoc" && rapid.Bool().Draw(t, "slow_tick") {
+		s.TickSlowMs = rapid.SampledFrom([]int{20, 200, 3000}).Draw(t, "tick_slow_ms")
+		s.QueryErr = rapid.Bool().Draw(t, "query_err")
 	}
 	return s
 }
